@@ -32,6 +32,7 @@ import CdnsVerif.Proofs.ConformsB
 import CdnsVerif.Model.File
 import CdnsVerif.Proofs.Resolve
 import CdnsVerif.Proofs.ResolveAec
+import CdnsVerif.Proofs.BuilderTime
 import CdnsVerif.Props.C06
 import CdnsVerif.Props.C17
 
@@ -164,5 +165,34 @@ theorem built_block_roundtrip (h : Hints) (recs : List Rec) (pi : Option Nat) (p
     ∃ fuel₀, ∀ fuel, fuel₀ ≤ fuel →
       (readFile fuel).run (fileBytes pv [toVal (build h recs) pi h.tps]) = .ok ((pv, .list [toVal (build h recs) pi h.tps]), []) :=
   file_roundtrip_checked pv _ hc
+
+open CdnsVerif.Model.Builder CdnsVerif.Model.Timestamp in
+/-- Record times survive: in the block built from any record sequence whose times are representable (the instant fits
+    `int64_t`, ticks below the rate), every stored query/response and malformed-message time is written as an unsigned offset
+    below 2^63 from the block's earliest time, and the reader's `add_time_offset` of that number onto the earliest time gives
+    back exactly the time the application supplied.  (C17's arithmetic lifted to every block the builder can produce.) -/
+theorem record_times_recovered (h : Hints) (recs : List Rec) (r : Nat) (hr : 1 ≤ r)
+    (hrecs : ∀ rec ∈ recs, ∀ t, rec.ts = some t → C17.InRange t r ∧ t.ticks < r) :
+    (∀ q ∈ (build h recs).qrs, ∀ t, q.ts = some t →
+      ∃ n, offsetOf t (build h recs).earliest r = some n ∧ n < two63 ∧ addTimeOffset (build h recs).earliest (toI64 n) r = .ok t) ∧
+    (∀ m ∈ (build h recs).mms, ∀ t, m.ts = some t →
+      ∃ n, offsetOf t (build h recs).earliest r = some n ∧ n < two63 ∧ addTimeOffset (build h recs).earliest (toI64 n) r = .ok t) := by
+  have key := build_times_recovered h recs r hr hrecs
+  constructor
+  · intro q hq t ht
+    apply key t
+    unfold BlockTime.times timeView
+    simp only [List.filterMap_append, List.mem_append, List.mem_filterMap, List.mem_map, id]
+    exact .inl ⟨some t, ⟨q, hq, ht⟩, rfl⟩
+  · intro m hm t ht
+    apply key t
+    unfold BlockTime.times timeView
+    simp only [List.filterMap_append, List.mem_append, List.mem_filterMap, List.mem_map, id]
+    exact .inr ⟨some t, ⟨m, hm, ht⟩, rfl⟩
+
+open CdnsVerif.Model.Builder CdnsVerif.Model.Timestamp in
+example : (build ⟨1 + 4, 0, 0, 0, 1000⟩ [.qr { ts := some ⟨7, 5⟩, clientPort := some 1 } none, .qr { ts := some ⟨3, 9⟩, clientPort := some 2 } none]).earliest = ⟨3, 9⟩ ∧
+    (build ⟨1 + 4, 0, 0, 0, 1000⟩ [.qr { ts := some ⟨7, 5⟩, clientPort := some 1 } none, .qr { ts := some ⟨3, 9⟩, clientPort := some 2 } none]).qrs.map (·.ts) = [some ⟨7, 5⟩, some ⟨3, 9⟩] := by
+  decide
 
 end CdnsVerif.Props.C01
